@@ -23,7 +23,6 @@ GoneOrders(x) == SelectSeq(x.pre.orders, LAMBDA o : ~HasOrder(x.post, o.id))
 NewShards(x)  == SelectSeq(x.post.shards, LAMBDA sh : ~HasShard(x.pre, sh.id))
 GoneShards(x) == SelectSeq(x.pre.shards, LAMBDA sh : ~HasShard(x.post, sh.id))
 
-Price(size, replica, dur) == CeilDiv(size * replica * dur, Mega)
 EvSize(ev) == IF ev.size = 0 THEN 1 ELSE ev.size
 
 -----------------------------------------------------------------------------
@@ -79,6 +78,14 @@ C06_MarketEscrow(s) == MuLeq(MarketOwes(s), [q |-> BalOf(s, "m_market"), r |-> 0
 \* conservation: whatever the market holds beyond what it owes is rounding dust only
 C04_NoStuckPayment(s, gh) ==
     MuLeq([q |-> BalOf(s, "m_market"), r |-> 0], MuAdd(MarketOwes(s), [q |-> gh.dustq, r |-> gh.dustr]))
+
+\* storage income is bytes x blocks actually stored: per provider, what its market account has accrued plus what it
+\* has claimed equals the ghost ledger built from the observed shard lifetimes (gh.earn), never from the code's counters
+EarnOf(gh, a) == IF Has(gh.earn, "a", a) THEN Get(gh.earn, "a", a) ELSE [a |-> a, q |-> 0, r |-> 0, cq |-> 0]
+C04_IncomeIsBytesBlocks(s, gh) ==
+    /\ \A i \in 1..Len(s.workers) : LET w == s.workers[i]  e == EarnOf(gh, w.a) IN
+          MuAdd(MuAdd(MuOf(w.rew), MuOf(w.income * (s.h - w.last))), [q |-> e.cq, r |-> 0]) = [q |-> e.q, r |-> e.r]
+    /\ \A i \in 1..Len(gh.earn) : (gh.earn[i].q # 0 \/ gh.earn[i].r # 0) => HasWorker(s, gh.earn[i].a)
 
 PendingMilli(s, p) == s.pool.acc * (p.cap \div Mega) - p.rdebt
 ClaimableMilli(s)  == SumSeq(s.pledges, LAMBDA p : IF p.cap > 0 THEN p.rew + PendingMilli(s, p) ELSE p.rew)
@@ -273,8 +280,13 @@ C11_KeptWhilePaid(x) ==
                  \/ (Kind(x) = "Terminate" /\ Ok(x))
                  \/ (Kind(x) = "Complete" /\ Ok(x) /\
                         \/ (HasOrder(x.pre, x.ev.order) /\ OrderOf(x.pre, x.ev.order).op = 2)
-                        \/ \E k \in 1..Len(x.pre.shards) : x.pre.shards[k].status = SMigrating /\ x.pre.shards[k].from = sh.sp
-                                                         /\ x.pre.shards[k].sp = x.ev.provider)
+                        \/ \E k \in 1..Len(x.pre.shards) :
+                              /\ x.pre.shards[k].status = SMigrating /\ x.pre.shards[k].from = sh.sp /\ x.pre.shards[k].sp = x.ev.provider
+                              \* the hand-over keeps the paid term: the receiving shard ends when the old one would have
+                              /\ HasShard(x.post, x.pre.shards[k].id)
+                              /\ ShardOf(x.post, x.pre.shards[k].id).status = SCompleted
+                              /\ ShardPaidEnd(ShardOf(x.post, x.pre.shards[k].id)) = ShardPaidEnd(sh)
+                              /\ ShardOf(x.post, x.pre.shards[k].id).size = sh.size)
 C11_ReleasedAtEnd_app(x) == Kind(x) = "Blocks" /\ x.out.result = "ok"
 C11_ReleasedAtEnd(x) ==
     \A i \in 1..Len(x.pre.shards) : LET sh == x.pre.shards[i] IN
